@@ -3,6 +3,7 @@ import PycModel.Lexer
 import PycModel.Parser.Stmt
 import PycModel.Generator
 import PycModel.Reflect
+import PycModel.DumpReader
 import PycModel.Cpp
 import PycModel.Generated.FakeHeaders
 import PycModel.Spec.Expr
@@ -120,19 +121,19 @@ def handle (line : String) : String :=
         go5 n (Spec.lcg r2.2) (Spec.stmtCase [r1.1, r2.1] :: acc)
     let cases := go5 count.toNat! (Spec.lcg (seed.toNat! + 11)) []
     "\t".intercalate (cases.map fun (t, d) => rec [t, d])
-  | ["reflect", file, text, xs] =>
-    match (parseText Generated.lexCfg 100000 text file).1 with
-    | .ast v =>
+  | ["reflectast", dump, xs] =>
+    match readDump dump with
+    | some v =>
       let fuel := v.size + 1
       let over := Cls.all.filter fun c => (xs.splitOn ",").contains c.name
       let w := visitWith over fuel v
       "OK\t" ++ toString (reach fuel v) ++ "\t" ++ " ".intercalate ((visitTrace fuel v).map Cls.name) ++ "\t" ++
         toString (showLines fuel 0 v).length ++ "\t" ++ toString w.1.length ++ "\t" ++ toString w.2.length
-    | _ => "NOPARSE"
-  | ["repr", file, text] =>
-    match (parseText Generated.lexCfg 100000 text file).1 with
-    | .ast v => "OK\t" ++ escape (reprVal v)
-    | _ => "NOPARSE"
+    | none => "BADDUMP"
+  | ["reprast", dump] =>
+    match readDump dump with
+    | some v => "OK\t" ++ escape (reprVal v)
+    | none => "BADDUMP"
   | ["cost", file, text] =>
     match parseText Generated.lexCfg 100000 text file with
     | (.ast _, some st) => "OK\t" ++ toString st.ticks ++ "\t" ++ toString st.lexCalls ++ "\t" ++ toString st.buf.size
@@ -173,6 +174,10 @@ def handle (line : String) : String :=
         (acc.1 ++ [e, .probe "T" (acc.2 % 4), .probe "U" ((acc.2 + 1) % 4)], acc.2 + 1)) ([.probe "T" (i % 4), .probe "U" ((i + 2) % 4)], i)
       some (Spec.histCase p withProbes.1)
     toString all.size ++ "\t" ++ "\t".intercalate (cases.map fun (t, d) => rec [t, d])
+  | ["genast", dump] =>
+    match readDump dump with
+    | some v => "OK\t" ++ genStr false v ++ "\t" ++ genStr true v
+    | none => "BADDUMP"
   | op :: _ => "BADOP " ++ op
   | [] => "BADOP"
 
